@@ -276,11 +276,15 @@ def _draw_spec(tape, ctx):
         else:
             small, large = docs, docs
     else:
-        vocab = tape.choice("l2.vocab", [20, 50, 300, 3000])
+        # 60000: a vocabulary for which the composite sort key col + (n_windows * V + 1) * row exceeds 2**32
+        vocab = tape.weighted("l2.vocab", [(2, 20), (2, 50), (2, 300), (2, 3000), (1, 60000)])
         n_docs = tape.between("l2.n_docs", 2, 40)
         total = tape.choice("l2.total", [20000, 40000, 80000, 200000])
+        if vocab == 60000:
+            total = 200000
         bulk = tape.subtape_seed("l2.corpus_seed")
-        docs = _draw_docs(tape, n_docs, max(4, 2 * total // n_docs), vocab, bulk_seed=bulk, zipf=tape.chance("l2.zipf", 1, 2))
+        docs = _draw_docs(tape, n_docs, max(4, 2 * total // n_docs), vocab, bulk_seed=bulk,
+                          zipf=tape.chance("l2.zipf", 1, 2) and vocab != 60000)
         if s["op"] == "fit-small+transform-large":
             small = [d[: max(3, len(d) // 40)] for d in docs[: max(1, n_docs // 8)]]
             large = docs
@@ -311,8 +315,10 @@ def _draw_spec(tape, ctx):
 def _times_for(docs, mode):
     if mode is None:
         return None
-    # deterministic dyadic increments (0.5, 1, 2) derived from position: no tape needed
-    return [[(0.5, 1.0, 2.0)[(i * 7 + di * 3) % 3] for i in range(len(d))] for di, d in enumerate(docs)]
+    # deterministic dyadic increments (0.5, 1, 2) derived from position, times a per-document time scale
+    # (bursty and slow documents: the mean inter-arrival time differs from chunk to chunk): no tape needed
+    return [[(0.5, 1.0, 2.0)[(i * 7 + di * 3) % 3] * (1.0, 0.125, 16.0)[(di * 5 + len(d)) % 3] for i in range(len(d))]
+            for di, d in enumerate(docs)]
 
 
 def _build(spec, classes, reference):
